@@ -1,0 +1,75 @@
+//go:build verif
+
+// Contracts for package wal, checked by /verif (govc). Ghost functions and
+// comments only.
+package wal
+
+func forall(lo, hi int, f func(int) bool) bool {
+	for i := lo; i < hi; i++ {
+		if !f(i) {
+			return false
+		}
+	}
+	return true
+}
+
+//@ type Writer
+//@   ghostfield sealedFlag bool
+//@   guards mu: sealedBuffers
+//@   lockinv mu: ghostSegmentsOrdered(self)
+
+// ghostSegmentsOrdered: the sealed segments carry non-decreasing sequence
+// marks, none above the writer's latest sequence number. Truncate relies on it.
+func ghostSegmentsOrdered(w *Writer) bool {
+	return forall(0, len(w.sealedBuffers), func(j int) bool {
+		return w.sealedBuffers[j] != nil && w.sealedBuffers[j] != w.activeBuffer && w.sealedBuffers[j].latestSeqNum <= w.latestSeqNum &&
+			forall(0, j, func(i int) bool { return w.sealedBuffers[i].latestSeqNum <= w.sealedBuffers[j].latestSeqNum })
+	})
+}
+
+//@ func Writer.Cut
+//@   property C08
+//@   panics when w.sealedFlag
+//@   requires w.activeBuffer != nil
+//@   modifies w.sealedBuffers, w.activeBuffer, bufferSegment.latestSeqNum, bufferSegment.buf, bufferSegment.readOffset
+//@   ensures len(w.sealedBuffers) == old(len(w.sealedBuffers)) + 1
+//@   ensures w.sealedBuffers[old(len(w.sealedBuffers))] == old(w.activeBuffer)
+//@   ensures forall(0, old(len(w.sealedBuffers)), func(j int) bool { return w.sealedBuffers[j] == old(w.sealedBuffers[j]) && w.sealedBuffers[j].latestSeqNum == old(w.sealedBuffers[j].latestSeqNum) && same(w.sealedBuffers[j].buf, old(w.sealedBuffers[j].buf)) })
+//@   ensures old(w.activeBuffer).latestSeqNum == w.latestSeqNum && same(old(w.activeBuffer).buf, old(w.activeBuffer.buf))
+//@   ensures w.activeBuffer != nil && w.activeBuffer != old(w.activeBuffer) && len(w.activeBuffer.buf) == 0
+//@   ensures ghostSegmentsOrdered(w)
+
+// Rotate: the next writer carries every segment with its bytes AND its
+// sequence mark; otherwise the next Truncate would drop unflushed operations.
+//@ func Writer.Rotate
+//@   property C08
+//@   panics when w.sealedFlag
+//@   requires w.activeBuffer != nil
+//@   modifies w.sealedFlag, Writer.*, bufferSegment.*
+//@   ensures w.sealedFlag && result != nil && result != w && !result.sealedFlag
+//@   ensures result.id == w.id + 1 && result.latestSeqNum == w.latestSeqNum && result.maxSize == w.maxSize
+//@   ensures len(result.sealedBuffers) == len(w.sealedBuffers) + 1
+//@   ensures forall(0, len(w.sealedBuffers), func(j int) bool { return result.sealedBuffers[j] != nil && same(result.sealedBuffers[j].buf, w.sealedBuffers[j].buf) && result.sealedBuffers[j].latestSeqNum == w.sealedBuffers[j].latestSeqNum })
+//@   ensures result.sealedBuffers[len(w.sealedBuffers)] != nil && same(result.sealedBuffers[len(w.sealedBuffers)].buf, w.activeBuffer.buf) && result.sealedBuffers[len(w.sealedBuffers)].latestSeqNum == w.latestSeqNum
+//@   ensures result.activeBuffer != nil && len(result.activeBuffer.buf) == 0
+//@   ensures ghostSegmentsOrdered(result)
+//@   ensures same(w.sealedBuffers, old(w.sealedBuffers)) && w.activeBuffer == old(w.activeBuffer) && w.latestSeqNum == old(w.latestSeqNum)
+//@   loop 0:
+//@     invariant len(nextLog.sealedBuffers) == len(w.sealedBuffers) + 1 && nextLog != nil && nextLog != w
+//@     invariant same(w.sealedBuffers, old(w.sealedBuffers)) && nextLog.latestSeqNum == w.latestSeqNum && nextLog.id == w.id + 1 && nextLog.maxSize == w.maxSize
+//@     invariant fresh(nextLog) && nextLog.activeBuffer != nil && !nextLog.sealedFlag
+//@     invariant forall(0, idx_, func(j int) bool { return nextLog.sealedBuffers[j] != nil && same(nextLog.sealedBuffers[j].buf, w.sealedBuffers[j].buf) && nextLog.sealedBuffers[j].latestSeqNum == w.sealedBuffers[j].latestSeqNum })
+
+// Truncate(s): only whole leading segments whose mark is <= s are dropped;
+// every segment holding an operation above s stays, in order.
+//@ func Writer.Truncate
+//@   property C08
+//@   panics when w.sealedFlag
+//@   modifies w.sealedBuffers
+//@   ensures len(w.sealedBuffers) <= old(len(w.sealedBuffers))
+//@   ensures forall(0, len(w.sealedBuffers), func(j int) bool { return w.sealedBuffers[j] == old(w.sealedBuffers[j+old(len(w.sealedBuffers))-len(w.sealedBuffers)]) })
+//@   ensures forall(0, old(len(w.sealedBuffers))-len(w.sealedBuffers), func(j int) bool { return old(w.sealedBuffers[j]).latestSeqNum <= seqNum })
+//@   ensures ghostSegmentsOrdered(w)
+//@   loop 0:
+//@     invariant truncateIndex == -1
+//@     invariant forall(0, idx_, func(j int) bool { return w.sealedBuffers[j].latestSeqNum <= seqNum })
